@@ -4,6 +4,7 @@ that the pruning is not idempotent on trees (so the second-round-trip clause is 
 -/
 import Proofs.C01Examples
 import Proofs.C01Second
+import Proofs.C01Third
 namespace Flatland.Flat.Proofs
 open Flatland.Flat Flatland.Flat.Spec
 
@@ -35,6 +36,32 @@ example : flatten exEnv01 "_".toList exSchema2
     = [("l_0".toList, "z".toList)] := by
   rw [roundtrip_second_flatten exEnv01 "_".toList exSchema2 exElem3 ex2_sepSafe exEnvOK (by decide)
     (by decide) (by decide) ex3_okP, ex3_flatten_pruned]
+
+/-- at pair level: what is left is a subsequence (indexes aside) with the same non-empty values -/
+theorem ex3_noIdx : flattenNoIdx exEnv01 "_".toList exSchema2 exElem3
+    = [("l".toList, "".toList), ("l".toList, "z".toList), ("l".toList, "".toList)] := by
+  simp [flattenNoIdx, relFlat, bfsPath, ownPath, pushed, unslot, unslotL, exSchema2, exElem3, resolve,
+    resolveList, childItems, kidsFrom, namePath, joinPair, joinSep, FNode.fl, FNode.cfl, FNode.u,
+    FNode.name, FNode.kids, FNode.slots]
+
+theorem ex3_noIdx_pruned : flattenNoIdx exEnv01 "_".toList exSchema2
+      (fromFlat exEnv01 "_".toList exSchema2 (flatten exEnv01 "_".toList exSchema2 exElem3))
+    = [("l".toList, "z".toList)] := by
+  rw [roundtrip_pruned exEnv01 "_".toList exSchema2 exElem3 ex2_sepSafe exEnvOK (by decide) (by decide)
+    (by decide) ex3_okP, ex3_pr]
+  simp [flattenNoIdx, relFlat, bfsPath, ownPath, pushed, unslot, unslotL, exSchema2, resolve,
+    resolveList, childItems, kidsFrom, namePath, joinPair, joinSep, FNode.fl, FNode.cfl, FNode.u,
+    FNode.name, FNode.kids, FNode.slots]
+
+example : [("l".toList, "z".toList)].Sublist
+      [("l".toList, "".toList), ("l".toList, "z".toList), ("l".toList, "".toList)] ∧
+    [("l".toList, "z".toList)].filter (fun p => !p.2.isEmpty)
+      = [("l".toList, "".toList), ("l".toList, "z".toList), ("l".toList, "".toList)].filter
+          (fun p => !p.2.isEmpty) := by
+  have h := roundtrip_flatten_sub exEnv01 "_".toList exSchema2 exElem3 ex2_sepSafe exEnvOK (by decide)
+    (by decide) (by decide) ex3_okP
+  rw [ex3_noIdx_pruned, ex3_noIdx] at h
+  exact h
 
 /-! ### the pruning is not idempotent on trees: a non-pruning List of pruning Lists -/
 
